@@ -21,7 +21,7 @@ Definition allowed (g : graph) (o : op) (x : N) : Prop :=
   | ODisconnect _ i => U_disc g i x
   | OUnpeer a b => exists xy, unpeer_ends g a b = Some [xy] /\ (U_cp g (fst xy) true x \/ U_cp g (snd xy) true x)
   | ORemoveInterface s iname => exists i, In i (cpn g s) /\ name_of g i = iname /\ U_cp g i true x
-  | ORemoveChild p iname => exists i, In i (cpn g p) /\ name_of g i = iname /\ U_cp g i false x
+  | ORemoveChild p iname => exists i, In i (cpn g p) /\ name_of g i = iname /\ (U_cp g i false x \/ U_disc g i x)
   | OPrune => A_prune g x
   end.
 
